@@ -440,6 +440,11 @@ func genBatch(r *vh.RNG, prefix string, nDialects int) *xmlBatch {
 			{Name: "VF_" + up + "_MERGE_UP", Bitmask: true, Entries: []ref.XEnumEntry{{Name: "VF_" + up + "_MU_A", Value: 1, ValueText: "1"}, {Name: "VF_" + up + "_MU_B", Value: 2, ValueText: "2"}, {Name: "VF_" + up + "_MU_HIGH", Value: 0x8000, ValueText: "0x8000"}}},
 			{Name: "VF_" + up + "_MERGE_DOWN", Bitmask: true, Entries: []ref.XEnumEntry{{Name: "VF_" + up + "_MD_A", Value: 128, ValueText: "128"}, {Name: "VF_" + up + "_MD_B", Value: 16, ValueText: "16"}, {Name: "VF_" + up + "_MD_C", Value: 2, ValueText: "2"}}},
 			{Name: "VF_" + up + "_MERGE_PLAIN", Bitmask: true, Entries: []ref.XEnumEntry{{Name: "VF_" + up + "_MP_A", Value: 4, ValueText: "4"}, {Name: "VF_" + up + "_MP_B", Value: 32, ValueText: "32"}, {Name: "VF_" + up + "_MP_C", Value: 0x4000, ValueText: "0x4000"}}},
+			// an ORDINARY enum whose extension carries bitmask="true": the first definition decides, it stays ordinary (3 is the
+			// name of its own entry, not "1 | 2"; 0 has a name; 4, 8 and 2^40 are entries)
+			{Name: "VF_" + up + "_MERGE_ORD", Entries: []ref.XEnumEntry{{Name: "VF_" + up + "_MO_IDLE", Value: 0, ValueText: "0"}, {Name: "VF_" + up + "_MO_RUN", Value: 1, ValueText: "1"}, {Name: "VF_" + up + "_MO_BOOST", Value: 2, ValueText: "2"}, {Name: "VF_" + up + "_MO_BOTH", Value: 3, ValueText: "3"}}},
+			// flags of several bits that overlap: 3 and 6 (7 is "both"), 8 and 24 without a flag 16
+			{Name: "VF_" + up + "_OVERLAP", Bitmask: true, Entries: []ref.XEnumEntry{{Name: "VF_" + up + "_OV_X", Value: 3, ValueText: "3"}, {Name: "VF_" + up + "_OV_Y", Value: 6, ValueText: "6"}, {Name: "VF_" + up + "_OV_W", Value: 8, ValueText: "8"}, {Name: "VF_" + up + "_OV_V", Value: 24, ValueText: "24"}, {Name: "VF_" + up + "_OV_U", Value: 0x60, ValueText: "0x60"}, {Name: "VF_" + up + "_OV_T", Value: 0x30, ValueText: "0x30"}}},
 		}}
 		ext := &ref.XDialect{File: prefix + "_mergetop.xml", Version: "2", Includes: []string{base.File}, Enums: []ref.XEnum{
 			{Name: "VF_" + up + "_MERGE_UP", Bitmask: true, Entries: []ref.XEnumEntry{{Name: "VF_" + up + "_MU_C", Value: 4, ValueText: "4"}, {Name: "VF_" + up + "_MU_D", Value: 8, ValueText: "0b1000"}, {Name: "VF_" + up + "_MU_AD", Value: 9, ValueText: "9"}}},
@@ -447,6 +452,7 @@ func genBatch(r *vh.RNG, prefix string, nDialects int) *xmlBatch {
 			// (the extension does not repeat the bitmask attribute, as extensions in the upstream dialects usually do not: the
 			// enum is the bitmask its first definition declared)
 			{Name: "VF_" + up + "_MERGE_PLAIN", Entries: []ref.XEnumEntry{{Name: "VF_" + up + "_MP_D", Value: 1, ValueText: "1"}, {Name: "VF_" + up + "_MP_E", Value: 2048, ValueText: "2048"}, {Name: "VF_" + up + "_MP_F", Value: 8, ValueText: "8"}}},
+			{Name: "VF_" + up + "_MERGE_ORD", Bitmask: true, Entries: []ref.XEnumEntry{{Name: "VF_" + up + "_MO_FOUR", Value: 4, ValueText: "4"}, {Name: "VF_" + up + "_MO_EIGHT", Value: 8, ValueText: "8"}, {Name: "VF_" + up + "_MO_FAR", Value: 1 << 40, ValueText: "2**40"}, {Name: "VF_" + up + "_MO_FIVE", Value: 5, ValueText: "5"}}},
 		}, Messages: []ref.XMessage{{ID: func() uint32 {
 			for {
 				id := uint32(r.Intn(1 << 24))
@@ -458,6 +464,11 @@ func genBatch(r *vh.RNG, prefix string, nDialects int) *xmlBatch {
 		}(), Name: genMsgName(r, ns), Fields: []ref.XField{{Type: "uint16_t", Name: "m"}}}}}
 		b.Files[base.File], b.Files[ext.File] = base, ext
 		b.Tops = append(b.Tops, ext.File)
+		// a dialect that says <version>0</version> over an include with version 3: its version is 0
+		vinc := &ref.XDialect{File: prefix + "_verinc.xml", Version: "3", Messages: []ref.XMessage{{ID: 44001, Name: "VF_" + up + "_VERINC_ARRAY_TEST_0", Fields: []ref.XField{{Type: "uint8_t", Name: "a"}}}}}
+		vtop := &ref.XDialect{File: prefix + "_verzero.xml", Version: "0", Includes: []string{vinc.File}, Messages: []ref.XMessage{{ID: 44002, Name: "VF_" + up + "_OBSTACLE_3D_1_TO_4", Fields: []ref.XField{{Type: "uint16_t", Name: "d"}}}}}
+		b.Files[vinc.File], b.Files[vtop.File] = vinc, vtop
+		b.Tops = append(b.Tops, vtop.File)
 	}
 	return b
 }
